@@ -319,6 +319,21 @@ def nodiff(ses, rep):
         fn = ses.need(ex, fname)
         args = [ex.fresh_lazy(t, p) if t == "&str" or not t.startswith("&") else RefV(ex.fresh_lazy(t.lstrip("&"), p)) for p, t in fn.params]
         outs = ex.run(fn, args)
+        # the diff is taken over the two texts as given (a producer that rewrites them first can call different texts equal)
+        strs = [a for a, (p_, t_) in zip(args, fn.params) if t_ == "&str"][:2]
+        seen_fl = False
+        for pi, o in enumerate(outs):
+            for c_ in find_calls(o.trace, lambda x: x.endswith("TextDiff::from_lines")):
+                seen_fl = True
+                same = len(c_[1]) >= 2 and len(strs) == 2 and all(c_[1][i_] is strs[i_] or (isinstance(c_[1][i_], Lazy) and vkey(c_[1][i_]) == vkey(strs[i_])) for i_ in (0, 1))
+                oid = f"nodiff/{fname}/path{pi}/diff-of-the-texts-as-given"
+                r, m = ses.obligation(oid, list(o.pc), z3.BoolVal(not same), "TextDiff::from_lines(old, new) on the parameters themselves")
+                if r == "sat":
+                    flagged.append((oid, f"{fname} diffs rewritten copies of the two texts: texts that differ (line endings, white space) can compare equal", "nodiff",
+                                    {"format": {"output_diff_unified": "unified", "output_diff": "standard", "output_diff_json": "json"}[fname], "missed": True, "rewritten": True}))
+                break
+        if not seen_fl:
+            raise Inconclusive(f"{fname} does not build its diff with TextDiff::from_lines")
         n = 0
         for pi, o in enumerate(outs):
             if o.kind != "return":
@@ -639,6 +654,8 @@ CASES = [
     ("lf-to-crlf", "local   a = 1\nlocal b = 2\n", ["--line-endings", "Windows"]),
     ("crlf-to-lf", "local   a = 1\r\nlocal b = 2\r\n", ["--line-endings", "Unix"]),
     ("already-formatted", "local a = 1\n", []),
+    ("crlf-only", "local a = 1\r\nlocal b = 2\r\n", []),
+    ("lf-only-under-windows", "local a = 1\nlocal b = 2\n", ["--line-endings", "Windows"]),
     ("drifted-insert", "local t = {\n  1, 2 }\n" + R("b") + R("a") + "\nprint(a, b, t)\n", ["--sort-requires"]),
     ("moved-block-2", R("e") + R("f") + R("g") + R("a") + R("b") + R("c"), ["--sort-requires"]),
 ]
@@ -739,7 +756,7 @@ def run(ses, rep):
     if flagged:
         fails = battery()
         for oid, what, kind, info in flagged:
-            if kind == "nodiff" and info.get("missed"):
+            if kind == "nodiff" and info.get("missed") and not info.get("rewritten"):
                 v, rec = big_file_replay(info["format"])
                 if v:
                     rep.add(oid, rep.violation({"obligation": kind, "format": info["format"]}, {"what": what, "observed": v, **rec}), v)
